@@ -1190,6 +1190,11 @@ def decode_malformed(res: Result, real: Real, r: random.Random) -> None:
             res.count('dec-order-accepted')  # same components, RFC 8955 4.2 says malformed: logged, the statement is silent
             res.ok('dec:malformed:order-same-rule', sig)
             return
+    if kind in ('duplicate', 'prefix-length'):
+        # outside the statement (it names undefined components and truncated values): logged, not flagged
+        res.count(f'dec-accepted-outside-statement:{kind}')
+        res.ok(cls, sig)
+        return
     res.violation(
         f'C16/dec-accepts-malformed:{kind}',
         f'{kind} ({detail}; reference: {ref_err}) delivered as a rule' + (' SHORTER than the original' if shorter else ''),
